@@ -300,20 +300,28 @@ def aLastEffMove (ms : List AMove) (acc : Nat) (x : String) (e : Int) : Option A
 def bumpEff (src : Bool) (amt : Int) (r : AMove) : AMove :=
   { r with pcevIn := r.pcevIn + (if src then 0 else amt), pcevOut := r.pcevOut + (if src then amt else 0) }
 
+/-- the running totals `insert_move` starts from: those of the latest move by `seq` (zero when the account is new or has no move in
+that asset) -/
+def movePcv (ms : List AMove) (acc : Nat) (x : String) (ex : Bool) : Int × Int :=
+  if ex then (match aLastMove ms acc x with | some r => (r.pcvIn, r.pcvOut) | none => (0, 0)) else (0, 0)
+
+/-- … and the effective totals: those of the move last by (effective_date, seq) among those dated `≤ eff` (zero when there is none) -/
+def movePcev (ms : List AMove) (acc : Nat) (x : String) (ex : Bool) (eff : Int) : Int × Int :=
+  if ex then
+    (match aLastMove ms acc x with
+     | none => (0, 0)
+     | some _ => (match aLastEffMove ms acc x eff with | some r => (r.pcevIn, r.pcevOut) | none => (0, 0)))
+  else (0, 0)
+
+def newMove (A : ADB) (txSeq : Val) (l : String) (ins : Val) (eff : Int) (a x : String) (amt : Int) (src ex : Bool) (acc : Nat) : AMove :=
+  let pcv := movePcv A.moves acc x ex
+  let pcev := movePcev A.moves acc x ex eff
+  { seq := A.movesSeq, ledger := l, txSeq := txSeq, acctSeq := acc, account := a, asset := x, amount := amt, ins := ins, eff := eff,
+    pcvIn := if src then pcv.1 else pcv.1 + amt, pcvOut := if src then pcv.2 + amt else pcv.2,
+    pcevIn := if src then pcev.1 else pcev.1 + amt, pcevOut := if src then pcev.2 + amt else pcev.2, isSource := src }
+
 def aInsertMove (A : ADB) (txSeq : Val) (l : String) (ins : Val) (eff : Int) (a x : String) (amt : Int) (src ex : Bool) (acc : Nat) : ADB :=
-  let pcv : Int × Int :=
-    if ex then (match aLastMove A.moves acc x with | some r => (r.pcvIn, r.pcvOut) | none => (0, 0)) else (0, 0)
-  let pcev : Int × Int :=
-    if ex then
-      (match aLastMove A.moves acc x with
-       | none => (0, 0)
-       | some _ => (match aLastEffMove A.moves acc x eff with | some r => (r.pcevIn, r.pcevOut) | none => (0, 0)))
-    else (0, 0)
-  let new : AMove :=
-    { seq := A.movesSeq, ledger := l, txSeq := txSeq, acctSeq := acc, account := a, asset := x, amount := amt, ins := ins, eff := eff,
-      pcvIn := if src then pcv.1 else pcv.1 + amt, pcvOut := if src then pcv.2 + amt else pcv.2,
-      pcevIn := if src then pcev.1 else pcev.1 + amt, pcevOut := if src then pcev.2 + amt else pcev.2, isSource := src }
-  let ms := A.moves ++ [new]
+  let ms := A.moves ++ [newMove A txSeq l ins eff a x amt src ex acc]
   let ms := if ex then
       (ms.map (fun r => if moveSel acc x r && decide (eff < r.eff) then bumpEff src amt r else r)).map
         (fun r => if moveSel acc x r && r.eff == eff && decide ((A.movesSeq : Int) < r.seq) then bumpEff src amt r else r)
@@ -390,18 +398,18 @@ theorem insert_move_conc (A : ADB) (txSeq : Val) (l : String) (ins : Val) (eff :
       (by intro r; simp [AMove.row, moveSel]) (by intro r; simp [AMove.row, bumpEff])
   cases ex
   · cases src <;>
-      simp [insert_move, eacc, AAcct.row, exVal, aInsertMove, ins_]
+      simp [insert_move, eacc, AAcct.row, exVal, aInsertMove, newMove, movePcv, movePcev, ins_]
   · cases src
     · have u1 := fun A1 => upd A1 false
       have u2 := fun A1 => upd2 A1 false
       simp only [Bool.false_eq_true, if_false] at u1 u2
       cases h1 : aLastMove A.moves r0.seq x <;> cases h2 : aLastEffMove A.moves r0.seq x eff <;> rw [h1] at e1 <;> rw [h2] at e2 <;>
-        simp [insert_move, eacc, e1, e2, AAcct.row, exVal, aInsertMove, h1, h2, ins_, AMove.row, u1, u2]
+        simp [insert_move, eacc, e1, e2, AAcct.row, exVal, aInsertMove, newMove, movePcv, movePcev, h1, h2, ins_, AMove.row, u1, u2]
     · have u1 := fun A1 => upd A1 true
       have u2 := fun A1 => upd2 A1 true
       simp only [if_true] at u1 u2
       cases h1 : aLastMove A.moves r0.seq x <;> cases h2 : aLastEffMove A.moves r0.seq x eff <;> rw [h1] at e1 <;> rw [h2] at e2 <;>
-        simp [insert_move, eacc, e1, e2, AAcct.row, exVal, aInsertMove, h1, h2, ins_, AMove.row, u1, u2]
+        simp [insert_move, eacc, e1, e2, AAcct.row, exVal, aInsertMove, newMove, movePcv, movePcev, h1, h2, ins_, AMove.row, u1, u2]
 
 -- ---------------------------------------------------------------- what the account functions do to each table
 
